@@ -18,7 +18,8 @@ CORE10 = {1, 3, 6, 19, 20, 33, 51, 53, 56, 57}
 CORE = {1, 2, 3, 6, 7, 14, 19, 20, 23, 33, 34, 51, 53, 56, 57, 60}
 TIERS = {
     "quick": [dict(use=ALL, gaps=["", " "], n=1, forms={1, 2, 3, 4}), dict(use=ALL, gaps=["", " "], n=2, forms={1}),
-              dict(use=CORE10, gaps=["", "  \t"], n=3, forms={2, 4})],
+              dict(use=CORE10, gaps=["", "  \t"], n=3, forms={2, 4}),
+              dict(use=CORE10 | {2, 14, 16}, gaps=["\n", "\n   ", "\n    ", "\n     ", "\n      ", " \n"], n=2, forms={1, 4})],
     "thorough": [dict(use=ALL, gaps=["", " ", "\t "], n=2, forms={1, 2, 3, 4}), dict(use=CORE | {4, 5, 8, 10, 39, 49, 52, 60, 61, 62, 63, 65}, gaps=["", " "], n=3, forms={1, 3}),
                  dict(use=CORE10, gaps=["", " "], n=4, forms={2, 4})],
 }
